@@ -1,14 +1,16 @@
 #!/bin/bash
-# usage: seed_run.sh <patch.diff> <tier> <check id>...   applies the patch to /repo, runs the checks, reverts.
+# usage: seed_run.sh <patch.diff> <tier> <check id>...
+# Applies the patch to a scratch worktree of /repo HEAD (never to /repo itself), runs the checks
+# against it (VERIF_REPO), removes the worktree.
 set -u
 patch=$1; tier=$2; shift; shift
-cd /repo && git diff --quiet || { echo "/repo is dirty"; exit 2; }
-git -C /repo apply "$patch" || { echo "patch does not apply"; exit 2; }
+wt=/tmp/sr-$$
+git -C /repo worktree add --detach $wt HEAD -q || { echo "worktree failed"; exit 2; }
+trap 'git -C /repo worktree remove --force $wt >/dev/null 2>&1' EXIT
+git -C $wt apply "$patch" || { echo "patch does not apply"; exit 2; }
 for id in "$@"; do
-  out=$(cd /verif && ./check.sh $id $tier 2>&1); rc=$?
+  out=$(cd /verif && VERIF_REPO=$wt ./check.sh $id $tier 2>&1); rc=$?
   nv=$(echo "$out" | grep -c "^VIOLATION")
   echo "[$id rc=$rc violations-lines=$nv] $(echo "$out" | grep -m1 -A3 '^VIOLATION' | tr '\n' ' ' | cut -c1-420)"
   echo "   $(echo "$out" | tail -1 | cut -c1-200)"
 done
-git -C /repo checkout -- .
-git -C /repo status --short
